@@ -73,7 +73,9 @@ def _drive(args):
                 if used + 7 + n + 999 > budget:      # stay inside the capacity of the configured carriers
                     break
                 used += 7 + n
-                v = headerlike(n, t) if style in ('headerlike', 'mixed') and t % 2 else isoc.rtext(r, n, alpha, 'safe')
+                # values over the whole character set of the code page (national characters, controls) for a third
+                v = headerlike(n, t) if style in ('headerlike', 'mixed') and t % 2 else \
+                    isoc.rtext(r, n, alpha, 'any' if (t + tid) % 3 == 0 else 'safe')
                 m['PDS%04d' % t] = v
             if r.random() < 0.4:
                 b = r.choice([x for x in bc if x != '1' and not bc[x].get('field_processor') and
